@@ -36,7 +36,8 @@ class FnView:
         return self.res.src(e)
 
     def find(self, pred: Callable[[ast.AST], bool]) -> list[ast.AST]:
-        return sorted((n for n in walk_own(self.fn.node) if pred(n)), key=lambda n: (getattr(n, "lineno", 0), getattr(n, "col_offset", 0)))
+        body = ast.Module(body=list(self.fn.node.body), type_ignores=[])  # statements only: not the signature
+        return sorted((n for n in walk_own(body) if pred(n)), key=lambda n: (getattr(n, "lineno", 0), getattr(n, "col_offset", 0)))
 
     def calls(self, name_re: str) -> list[ast.Call]:
         rx = re.compile(name_re)
@@ -84,14 +85,58 @@ def holds(facts: set[str], need: str) -> bool:
     return True
 
 
+def _establishing(v: FnView, fact: str) -> list:
+    """T/F nodes of the CFG whose outcome establishes `fact`."""
+    from .norm import facts as _facts
+
+    out = []
+    for n in v.cfg.nodes:
+        if n.kind in ("T", "F") and isinstance(n.node, ast.expr):
+            fs = set(_facts(n.node, n.kind == "T")) | set(_facts(n.node, n.kind == "T", v.res.src))
+            if fact.startswith("re:"):
+                if has_fact(fs, fact[3:]):
+                    out.append(n)
+            elif fact in fs:
+                out.append(n)
+    return out
+
+
+def need_holds(v: FnView, node: ast.AST, alts: list[str], raw: bool = False) -> bool:
+    """Every path from the function entry to `node` passes a condition edge
+    that establishes one of the alternatives (or the short-circuit context of
+    `node` inside its expression does)."""
+    from .cfg import expr_guards
+    from .norm import fact_set
+
+    eg = expr_guards(node, stop=v.cfg._stop_for(node))
+    local = fact_set(eg) | fact_set(eg, v.res.src)
+    through = []
+    for a in alts:
+        fs = [a] if raw else need_facts(a)
+        if len(fs) != 1:
+            if len(alts) != 1:
+                raise AnalysisError(f"gate table: a compound need `{a}` cannot be an alternative")
+            return all(need_holds(v, node, [f], raw=True) for f in fs)
+        if fs[0].startswith("re:"):
+            if has_fact(local, fs[0][3:]):
+                return True
+        elif fs[0] in local:
+            return True
+        through += _establishing(v, fs[0])
+    tn = v.cfg.node_for(node)
+    if tn is None:
+        raise AnalysisError(f"no CFG node for `{src(node)[:60]}` in {v.fn.key}")
+    through = [x for x in through if x is not tn]
+    return bool(through) and v.cfg.must_pass(tn, through)
+
+
 def require(report: Report, rule: str, v: FnView, node: ast.AST, needs: list, what: str, why: str) -> bool:
     """Obligation: `node` is evaluated only under every need (a list entry is a
-    disjunction of alternatives).  Returns True when it holds."""
-    facts = v.guards(node)
+    disjunction of alternatives, decided path-wise).  Returns True when it holds."""
     missing = []
     for p in needs:
         alts = [p] if isinstance(p, str) else list(p)
-        if not any(holds(facts, a) for a in alts):
+        if not need_holds(v, node, alts):
             missing.append(" | ".join(alts))
     construct = " ".join(src(node).split())[:120]
     if missing:
@@ -100,12 +145,12 @@ def require(report: Report, rule: str, v: FnView, node: ast.AST, needs: list, wh
             v.fn,
             node,
             f"{what}: {construct}",
-            f"{why}; not guarded by: {'; '.join(missing)}",
-            witness=[f"guards holding at this point: {sorted(facts)}"],
+            f"{why}; a path reaches it without establishing: {'; '.join(missing)}",
+            witness=[f"facts that dominate this point: {sorted(v.guards(node, resolve=False))}"],
             what=f"{what} requires {needs}",
         )
         return False
-    report.ob(rule, v.fn.key, f"{what} [{construct}] is guarded by {needs}")
+    report.ob(rule, v.fn.key, f"{what} [{construct}] only under {needs}")
     return True
 
 
